@@ -47,13 +47,25 @@ theorem hasPrefix_cons_cons (a b : Char) (c p : Str) :
 
 /-! ### formatString -/
 
-theorem formatString_eq (ideal : Str) : formatString ideal = ideal := by
-  unfold formatString snprintfM bufferSize
-  simp only
-  split
-  · rename_i h
-    exact List.take_of_length_le (by omega)
-  · simp
+theorem formatStringWith_convError (cap : Nat) : formatStringWith cap none = .exception := by
+  simp [formatStringWith, snprintfM]
+
+/-- for every capacity of the stack buffer (also 0 and 1) the complete text comes back, provided its length
+    is representable in `int`; otherwise snprintf reports an error and formatString throws -/
+theorem formatStringWith_text (cap : Nat) (t : Str) :
+    formatStringWith cap (some t) = if t.length ≤ intMax then .ok t else .exception := by
+  unfold formatStringWith snprintfM
+  by_cases h : t.length > intMax
+  · have h' : ¬ t.length ≤ intMax := by omega
+    simp [h, h']
+  · have h' : t.length ≤ intMax := by omega
+    simp only [h, h', ↓reduceIte]
+    split
+    · rename_i hlt
+      have : cap ≠ 0 := by omega
+      simp only [this, ↓reduceIte]
+      rw [List.take_of_length_le (by omega)]
+    · simp
 
 /-! ### splitSlash -/
 
